@@ -94,3 +94,34 @@ def precision_zero_is_a_value(ctx, rule, classes=None):
                key=f"precision 0 treated as missing in {fi.qualname}")
     ctx.ob(rule, anchor, anchor.node.lineno, 'precision lookups test membership, not truth', not bad,
            fact=f"{n} precision lookups examined", why='see the reports', key='precision lookup idiom', nontrivial=False)
+
+
+def groupby_on_sorted_input(ctx, rule, qualnames):
+    """itertools.groupby merges only *consecutive* items with equal keys.  Collecting groups into a dictionary keyed by
+    the group key is complete only if the input was sorted by that key first: otherwise a later run with the same key
+    replaces the earlier one and its members vanish from the result (wells missing from an instruction)."""
+    model = ctx.model
+    n = 0
+    for q in qualnames:
+        fi = model.func(q)
+        for c in ast.walk(fi.node):
+            if not (isinstance(c, ast.Call) and ast.unparse(c.func).split('.')[-1] == 'groupby' and c.args):
+                continue
+            n += 1
+            src = c.args[0]
+            key = next((k.value for k in c.keywords if k.arg == 'key'), c.args[1] if len(c.args) > 1 else None)
+            ok = False
+            srcs = [src]
+            if isinstance(src, ast.Name):
+                srcs = [st.value for st in ast.walk(fi.node) if isinstance(st, ast.Assign) and
+                        any(isinstance(t, ast.Name) and t.id == src.id for t in st.targets)] or [src]
+            for s_ in srcs:
+                if isinstance(s_, ast.Call) and isinstance(s_.func, ast.Name) and s_.func.id == 'sorted':
+                    skey = next((k.value for k in s_.keywords if k.arg == 'key'), None)
+                    ok = (key is None and skey is None) or (key is not None and skey is not None and
+                                                           ast.unparse(key) == ast.unparse(skey))
+            ctx.ob(rule, fi, c.lineno, f"{q}: groupby runs over input sorted by the grouping key", ok,
+                   fact=ast.unparse(c)[:80], why='equal keys that are not adjacent form separate groups: collected into a '
+                   'mapping, the later group replaces the earlier one and its members are lost',
+                   key=f"groupby on unsorted input in {q.split('.')[-1]}")
+    ctx.count('groupby_calls', n)
